@@ -444,6 +444,20 @@ func (ac *AsyncCall) retire(response *Response) {
 	close(ac.ready)
 }
 
+// Err reports the error of a call that has already completed with one. It
+// never blocks: for a call that is still in flight, or that succeeded, it
+// returns nil.
+func (ac *AsyncCall) Err() error {
+	select {
+	case <-ac.ready:
+		if ac.response.Error != nil {
+			return ac.response.Error
+		}
+	default:
+	}
+	return nil
+}
+
 // Await waits for (and decodes) the results of a Call.
 // The response will be unmarshaled from JSON into the result.
 //
